@@ -118,3 +118,79 @@ Definition r17_trunc (u : tunit) (x m ns : Z) : list Z :=
   | Ok y, Some s => if is_nat y then c_res r else c_int s     (* NaT: the multiple is not representable *)
   | _, _ => c_res r
   end.
+
+(* ---- extension X27: with_* observed, with_* chain, (k * d) / d, scaling laws, PartialOrd, From<Option<i64>> ---- *)
+Definition obind17 {A B} (o : option A) (f : A -> option B) : option B :=
+  match o with Some a => f a | None => None end.
+Definition with_kind (t kind v : Z) : option Z :=
+  match kind with
+  | 0 => time_with_hour t v
+  | 1 => time_with_minute t v
+  | 2 => time_with_second t v
+  | _ => time_with_nanosecond t v
+  end.
+(* the result, then what its four getters report.  Spec cells (what the property demands: the new component and the
+   three others of t, computed by plain division) when t is a time of day and v a valid component; otherwise the
+   model's getters of the result (a leap-second nanosecond spills, 23:59:59 + leap: the getters panic) *)
+Definition r17_with_obs (t kind v : Z) : list Z :=
+  match with_kind t kind v with
+  | None => c_null
+  | Some t' =>
+    c_int t' ++
+    (if (0 <=? t) && (t <? 86400000000000) && (0 <=? v)
+        && (v <? match kind with 0 => 24 | 1 => 60 | 2 => 60 | _ => 1000000000 end)
+     then c_int (if kind =? 0 then v else t / 3600000000000)
+          ++ c_int (if kind =? 1 then v else t / 60000000000 mod 60)
+          ++ c_int (if kind =? 2 then v else t / 1000000000 mod 60)
+          ++ c_int (if (kind =? 0) || (kind =? 1) || (kind =? 2) then t mod 1000000000 else v)
+     else c_res (time_hour t') ++ c_res (time_minute t') ++ c_res (time_second t') ++ c_res (time_nanosecond t'))
+  end.
+(* Time(0).with_hour(h)?.with_minute(m)?.with_second(s)?.with_nanosecond(n), then spec: from_hms_nano(h, m, s, n)
+   (valid components), resp. the model's chain again (invalid ones: None) *)
+Definition r17_with_chain (h m s n : Z) : list Z :=
+  let chain := obind17 (time_with_hour 0 h) (fun t1 => obind17 (time_with_minute t1 m) (fun t2 =>
+               obind17 (time_with_second t2 s) (fun t3 => time_with_nanosecond t3 n))) in
+  c_optz chain ++
+  (if (0 <=? h) && (h <? 24) && (0 <=? m) && (m <? 60) && (0 <=? s) && (s <? 60) && (0 <=? n) && (n <? 1000000000)
+   then c_res (time_from_hms_nano h m s n) else c_optz chain).
+(* two setters in both orders *)
+Definition r17_with_pair (t k1 v1 k2 v2 : Z) : list Z :=
+  c_optz (obind17 (with_kind t k1 v1) (fun t1 => with_kind t1 k2 v2))
+  ++ c_optz (obind17 (with_kind t k2 v2) (fun t1 => with_kind t1 k1 v1)).
+
+(* d * k, then (d * k) / d; spec cell k where C17_timedelta_div applies *)
+Definition r17_muldiv (m n k : Z) : list Z :=
+  let d := mktd m n in
+  match td_mul d k with
+  | Panic p => c_panic p
+  | Ok kd =>
+    c_td kd ++
+    (if negb (td_is_nat d) && negb (n =? 0) && in_i64 n && negb (td_is_nat kd) && in_i64 (td_ns kd)
+     then c_int k else c_res (td_div kd d))
+  end.
+(* a / b: quotient, and spec for month-free in-range operands: the truncated quotient q with a = q*b + r, |r| < |b| *)
+Definition r17_div (m1 n1 m2 n2 : Z) : list Z :=
+  let r := td_div (mktd m1 n1) (mktd m2 n2) in
+  c_res r ++
+  (if (m1 =? 0) && (m2 =? 0) && in_i64 n1 && in_i64 n2 && negb (n2 =? 0) && in_i32 (Z.quot n1 n2)
+   then c_int (Z.quot n1 n2) else c_res r).
+
+(* the scaling laws, each side evaluated by the model operators (j + k and j * k fit i32: generator) *)
+Definition r17_scale (m n j k : Z) : list Z :=
+  let d := mktd m n in
+  c_rtd (td_mul d (j + k))
+  ++ c_rtd (bind_td (td_mul d j) (fun dj => bind_td (td_mul d k) (fun dk => td_add dj dk)))
+  ++ c_rtd (td_mul d (j * k))
+  ++ c_rtd (bind_td (td_mul d k) (fun dk => td_mul dk j))
+  ++ c_rtd (td_mul d (-1)) ++ c_td (td_neg d)
+  ++ c_rtd (td_mul d 0) ++ c_rtd (td_mul d 1).
+
+(* PartialOrd::partial_cmp both ways: -1 / 0 / 1 / None *)
+Definition c_cmp17 (o : option comparison) : list Z :=
+  match o with Some Lt => c_int (-1) | Some Eq => c_int 0 | Some Gt => c_int 1 | None => c_null end.
+Definition r17_cmp (m1 n1 m2 n2 : Z) : list Z :=
+  c_cmp17 (td_partial_cmp (mktd m1 n1) (mktd m2 n2)) ++ c_cmp17 (td_partial_cmp (mktd m2 n2) (mktd m1 n1)).
+
+(* From<Option<i64>> for Time / TimeDelta, Time::is_nat *)
+Definition r17_from_opt (o : option Z) : list Z :=
+  c_int (time_from_opt_i64 o) ++ c_bool (time_is_nat (time_from_opt_i64 o)) ++ c_td (td_from_opt_i64 o).
